@@ -30,6 +30,26 @@ PROPERTIES = {
         "assumptions": COMMON_ASSUMPTIONS,
         "tests": [{"test": "TestC02History", "quick": 400, "thorough": 48000}],
     },
+    "C08": {
+        "level": "exploration",
+        "rule": "rapid draws histories of the four forwarder admin messages (batches of 0-101 ids, duplicates, ids already present/absent, "
+                "invalid ids, unknown protocol names, foreign signers) interleaved with probe transfers that are valid by construction. "
+                "After every message: model verdict == message result, model sets == exported state == all four pause queries (all pages). "
+                "Every probe runs on the current state S and on S with every pause removed: paused destination => error ack; otherwise "
+                "identical ack and ledger delta. Non-trivial = a probe executed while >= 1 pause entry exists; distinct by (paused sets, destination).",
+        "assumptions": COMMON_ASSUMPTIONS + ["an empty counterparty batch is a re-synchronisation step (the statement does not say what it means)",
+                                             "counterparty ids come from the canonical and the clearly invalid region; the lenient region is C20's subject"],
+        "tests": [{"test": "TestC08History", "quick": 300, "thorough": 40000}],
+    },
+    "C12": {
+        "level": "exploration",
+        "rule": HISTORY_RULE + "After EVERY step the exported dispatcher state is compared with a ledger the harness folds from the "
+                "successful constructed transfers (received coin, forwarded coin computed by the reference model, count). "
+                "Non-trivial = a history with >= 2 successful transfers on >= 2 statistics keys and >= 1 refused transfer; "
+                "distinct by history.",
+        "assumptions": COMMON_ASSUMPTIONS + ["stated domain bound: cumulative amount per statistics key below 2^256 (single amounts capped at 2^248)"],
+        "tests": [{"test": "TestC12History", "quick": 400, "thorough": 40000}],
+    },
     "C14": {
         "level": "exploration",
         "rule": "rapid generators over (a) structure-aware mutations of valid memos in an orbiter-addressed packet, "
